@@ -258,5 +258,49 @@ func runC05(r *Report, rng *rand.Rand, thorough bool) {
 		}
 	}
 	r.Exhaustive = true
-	r.Rule = "every supported row of the OAS 3.0.3 style table (location x style incl. defaulted x explode default/true/false x primitive/array/object) x k values: (client) the request built by the generated client carries exactly the table's serialisation (compared unescaped, with an independent Go rendering of the table and with the Coq model); (server) requests serialised by the table as a conforming third-party client would are decoded by each of the 7 generated servers into the value; non-trivial = array, object or defaulted style"
+	// ---- a path that BEGINS with a parameter: the prescribed wire form of a value with a colon (simple style leaves ":" as it
+	// is) is /org:acme/items/x under the server's base path; the client must emit that request, not an absolute URL
+	{
+		var scenarios []map[string]any
+		type lm struct{ fw, lead, base string }
+		ms := map[string]lm{}
+		for _, fw := range Frameworks {
+			name := "par_" + fw + "_lead"
+			if st := lab.Status[name]; st == nil || !st.OK {
+				continue
+			}
+			for k, lead := range []string{"org:acme", "12:30", "urn:isbn:1", "plain"} {
+				for _, base := range []string{"", "/api/v1"} {
+					lb, _ := json.Marshal(lead)
+					ib, _ := json.Marshal("x")
+					id := fmt.Sprintf("%s/leadwire/%d%s", name, k, base)
+					scenarios = append(scenarios, map[string]any{"id": id, "pkg": name, "opts": map[string]any{"short_circuit": -1, "strict_short_circuit": -1, "base_url": base},
+						"client": map[string]any{"fn": "NewLeadparamRequest", "args": []json.RawMessage{lb, ib}, "via_method": len(scenarios)%2 == 1}})
+					ms[id] = lm{fw, lead, base}
+				}
+			}
+			break // the client template is the same for every server flavour
+		}
+		results, err := lab.Run(scenarios)
+		if err != nil {
+			r.Violate("lab_run_failed", err.Error(), nil)
+		}
+		for _, sc := range scenarios {
+			id := sc["id"].(string)
+			res := results[id]
+			m := ms[id]
+			r.Count("leadwire/"+id, strings.Contains(m.lead, ":"))
+			r.Dist["path-begins-with-parameter"]++
+			want := m.base + "/" + m.lead + "/items/x"
+			if res == nil || res.Err != "" || res.Wire == nil || res.Wire.Path != want {
+				e, got := "no result", ""
+				if res != nil {
+					e = res.Err
+					got = wirePath(res)
+				}
+				r.Violate("client_wire/path/leading-parameter", fmt.Sprintf("/{lead}/items/{id} with lead = %q under base %q: error %q, request path %q, the table prescribes %q", m.lead, m.base, e, got, want), map[string]any{"scenario": sc, "lead": m.lead})
+			}
+		}
+	}
+	r.Rule = "a path that begins with a parameter (values with colons, with and without a base path in the server URL); every supported row of the OAS 3.0.3 style table (location x style incl. defaulted x explode default/true/false x primitive/array/object) x k values: (client) the request built by the generated client carries exactly the table's serialisation (compared unescaped, with an independent Go rendering of the table and with the Coq model); (server) requests serialised by the table as a conforming third-party client would are decoded by each of the 7 generated servers into the value; non-trivial = array, object or defaulted style"
 }
